@@ -198,7 +198,7 @@ CHECKS["C32"] = dict(
     technique="TLA+ lock-granularity model of accounting checked by TLC; TLC-generated interleavings forced on the real "
               "accounting.Accounting through a blocking settlement stub; recorded trace judged by the TLA+ trace spec; the "
               "race detector observes the same calls running free in a child process (thorough tier)",
-    level_text="TLC exhausts the Accounting model (2 peers, 3 goroutines, Reserve/Credit/Debit/NotifyPayment cut at every "
+    level_text="TLC exhausts the Accounting model (2 peers, 3 goroutines, 3 calls -- 4 in the thorough tier --, Reserve/Credit/Debit/NotifyPayment cut at every "
                "settlement call, the first contact with a peer as its own step -- RetrieveTraffic under the map mutex --, blocking on the "
                "map mutex / peer lock with hand-over) and generates one shortest behaviour per (model state, "
                "step) plus random behaviours of up to 6 calls; each is forced on real accounting.NewAccounting (every settlement "
@@ -217,15 +217,15 @@ CHECKS["C32"] = dict(
                     env=dict(VERIF_MAXOPS=2, VERIF_FRESH=1)),
                dict(_ACCT, mode="edges", cfg="AccountingGenEdges.cfg", depth=14, max=350, name="fresh-onepeer-edges-3calls",
                     env=dict(VERIF_MAXOPS=3, VERIF_FRESH=1, VERIF_ONEPEER=1))],
-        thorough=[dict(_ACCT, mode="edges", cfg="AccountingGenEdges.cfg", depth=12, max=1500, name="edges-3calls", env=dict(VERIF_MAXOPS=3),
+        thorough=[dict(_ACCT, mode="edges", cfg="AccountingGenEdges.cfg", depth=12, max=1000, name="edges-3calls", env=dict(VERIF_MAXOPS=3),
                        timeout=900),
-                  dict(_ACCT, mode="sim", cfg="AccountingGenSim.cfg", depth=16, num=2500, max=1500, name="walks-6calls",
+                  dict(_ACCT, mode="sim", cfg="AccountingGenSim.cfg", depth=16, num=2500, max=1000, name="walks-6calls",
                        env=dict(VERIF_MAXOPS=6)),
-                  dict(_ACCT, mode="edges", cfg="AccountingGenEdges.cfg", depth=14, max=1500, name="fresh-edges-3calls",
+                  dict(_ACCT, mode="edges", cfg="AccountingGenEdges.cfg", depth=14, max=1000, name="fresh-edges-3calls",
                        env=dict(VERIF_MAXOPS=3, VERIF_FRESH=1), timeout=900),
-                  dict(_ACCT, mode="edges", cfg="AccountingGenEdges.cfg", depth=14, max=1000, name="fresh-onepeer-edges-3calls",
+                  dict(_ACCT, mode="edges", cfg="AccountingGenEdges.cfg", depth=14, max=700, name="fresh-onepeer-edges-3calls",
                        env=dict(VERIF_MAXOPS=3, VERIF_FRESH=1, VERIF_ONEPEER=1)),
-                  dict(_ACCT, mode="sim", cfg="AccountingGenSim.cfg", depth=20, num=1500, max=1000, name="fresh-walks-6calls",
+                  dict(_ACCT, mode="sim", cfg="AccountingGenSim.cfg", depth=20, num=1500, max=700, name="fresh-walks-6calls",
                        env=dict(VERIF_MAXOPS=6, VERIF_FRESH=1), salt=9)]),
     post_gen=_c32_post,
     judge=dict(spec="AccountingTrace.tla", cfg="AccountingTrace.cfg"),
